@@ -95,6 +95,22 @@ func c31Gen(r *vu.Rng, i int) []string {
 		// concurrent use of one generator: goroutines x iterations over a set of connection IDs
 		return []string{fmt.Sprintf("resetconc %s %d %d %d", vu.Hex(r.Bytes(32)), r.Range(1, 8), r.Range(2, 8), r.Range(500, 3000))}
 	}
+	if r.Chance(1, 12) {
+		// a PAIR of different contexts whose naive concatenation cid|ip|port coincides: 12 bytes move
+		// between the end of the connection ID and the start of the address (IPv6 <-> IPv4)
+		var cid, addr []byte
+		if r.Bool() {
+			addr = r.Bytes(16)
+			cid = r.Bytes(r.Intn(9))
+			if r.Chance(1, 4) {
+				cid = r.Bytes(r.Intn(21))
+			}
+		} else {
+			addr = r.Bytes(4)
+			cid = r.Bytes(r.Range(12, 20))
+		}
+		return []string{fmt.Sprintf("realpair %d %s %s %d %s", r.Intn(1<<32), vu.Hex(cid), vu.Hex(addr), r.Intn(65536), vu.Hex(r.Bytes(r.Intn(21))))}
+	}
 	switch r.Intn(10) {
 	case 0, 1:
 		return []string{fmt.Sprintf("ad %s %s %d", vu.Hex(c31Cid(r)), vu.Hex(c31Addr(r)), r.Intn(65536))}
@@ -282,6 +298,8 @@ func c31Exec1(op string, t []string, o *vu.Out) string {
 		return "ok " + vu.Hex(odcid)
 	case t[0] == "real" && len(t) == 10:
 		return c31Real(op, t, o)
+	case t[0] == "realpair" && len(t) == 6:
+		return c31RealPair(op, t, o)
 	case t[0] == "resetconc" && len(t) == 5:
 		key := vu.MustHex(t[1])
 		ncid, ng, iters := vu.Atoi(t[2]), vu.Atoi(t[3]), vu.Atoi(t[4])
@@ -387,6 +405,60 @@ func c31ResetConcurrent(op string, key []byte, ncid, ng, iters int, o *vu.Out) {
 		}
 		return
 	}
+}
+
+// c31RealPair: two DIFFERENT contexts (cid, ip, port) whose concatenated bytes coincide: the
+// token is issued (real makeToken, real AEAD) for one and presented with the other at the same
+// time with the same destination connection ID. It must be rejected, and the additional data of
+// the two contexts must differ (injectivity of additionalData stated on the implementation).
+func c31RealPair(op string, t []string, o *vu.Out) string {
+	t0 := vu.Atoi64(t[1])
+	cid, addr, odcid := vu.MustHex(t[2]), vu.MustHex(t[3]), vu.MustHex(t[5])
+	port := vu.Atoi(t[4])
+	var cid2, addr2 []byte
+	switch {
+	case len(addr) == 16 && len(cid) <= 243:
+		cid2 = append(append([]byte{}, cid...), addr[:12]...)
+		addr2 = addr[12:]
+	case len(addr) == 4 && len(cid) >= 12 && len(cid) <= 255:
+		cid2 = cid[:len(cid)-12]
+		addr2 = append(append([]byte{}, cid[len(cid)-12:]...), addr...)
+	default:
+		return "bad-op"
+	}
+	ap, ok := c31AddrPort(addr, port)
+	ap2, ok2 := c31AddrPort(addr2, port)
+	if !ok || !ok2 || t0 < 0 || t0 > 1<<41 {
+		return "bad-op"
+	}
+	o.Stat(fmt.Sprintf("realpair:v%d", len(addr)))
+	var rs retryState
+	if err := rs.init(); err != nil {
+		return "bad-op"
+	}
+	if bytes.Equal(rs.additionalData(cid, ap), rs.additionalData(cid2, ap2)) {
+		o.Fail("", fmt.Sprintf("%s: additionalData(%x, %v) == additionalData(%x, %v): different contexts, same additional data", op, cid, ap, cid2, ap2))
+	}
+	now := time.Unix(t0, 0)
+	for dir := 0; dir < 2; dir++ {
+		c1, a1, c2, a2 := cid, ap, cid2, ap2
+		if dir == 1 {
+			c1, a1, c2, a2 = cid2, ap2, cid, ap
+		}
+		token, dst, err := rs.makeToken(now, c1, odcid, a1)
+		if err != nil {
+			o.Fail("", op+": makeToken failed")
+			return "ok"
+		}
+		if _, okv := rs.validateToken(now, token, c1, dst, a1); !okv {
+			o.Fail("", fmt.Sprintf("%s: token rejected in its own context", op))
+		}
+		if _, okv := rs.validateToken(now, token, c2, dst, a2); okv {
+			o.Fail("", fmt.Sprintf("%s: token issued for source connection ID %x at %v is accepted for connection ID %x at %v", op, c1, a1, c2, a2))
+			return "ok"
+		}
+	}
+	return "ok"
 }
 
 // c31Real: real AEAD, real makeToken; fixed clock; single-field mutation `mut`:
